@@ -111,12 +111,13 @@ class Report:
         for fid, (f, n) in sorted(known_hit.items()):
             print(f"KNOWN-FINDING: property={self.pid} {f['text']} [{fid}; {n} instance(s) this run]")
         # write replays for new violations (at most 20 files, one line each)
-        os.makedirs(os.path.join(env.VERIF, "replays", self.pid), exist_ok=True)
+        OUT = os.environ.get("VERIF_OUT", env.VERIF)  # (scratch output dir for sensitivity runs against patched copies)
+        os.makedirs(os.path.join(OUT, "replays", self.pid), exist_ok=True)
         printed = 0
         for v in new:
             blob = json.dumps(_jsonable(v), sort_keys=True)
             h = hashlib.sha1(blob.encode()).hexdigest()[:12]
-            path = os.path.join(env.VERIF, "replays", self.pid, f"{h}.json")
+            path = os.path.join(OUT, "replays", self.pid, f"{h}.json")
             if printed < 20:
                 with open(path, "w") as fh:
                     json.dump({"property": self.pid, "violation": _jsonable(v),
@@ -184,8 +185,8 @@ class Report:
                 "repo": env.REPO,
             },
         }
-        os.makedirs(os.path.join(env.VERIF, "evidence"), exist_ok=True)
-        with open(os.path.join(env.VERIF, "evidence", f"{self.pid}.json"), "w") as fh:
+        os.makedirs(os.path.join(OUT, "evidence"), exist_ok=True)
+        with open(os.path.join(OUT, "evidence", f"{self.pid}.json"), "w") as fh:
             json.dump(ev, fh, indent=1)
         print(f"{self.pid} {self.tier}: structures={ev['coverage']['structures_enumerated']} paths={ev['coverage']['symbolic_paths']} "
               f"obligations={obligations} discharged={discharged} inconclusive={inconc} "
